@@ -52,7 +52,7 @@ func shapeFor(t string) string {
 
 // pipeline: compress then decompress; returns stream and decoded bytes
 func pipeline(t, e string, blk, jobs uint, data []byte) ([]byte, []byte, error) {
-	p := Params{t, e, blk, jobs, 32, int64(len(data)), false}
+	p := Params{t, e, blk, jobs, 32, int64(len(data)), false, false}
 	stream, where, err := compress(data, p)
 	if err != nil {
 		return nil, nil, fmt.Errorf("%s: %v", where, err)
